@@ -233,32 +233,47 @@ class ReaderSuite(Suite):
         return None
 
 
+def _near_boundary(rng, size, unit, align=1):
+    """an offset shortly before (or at) a unit boundary inside the disk"""
+    nunits = max(1, (size + unit - 1) // unit)
+    k = rng.randrange(0, nunits + 1)
+    back = rng.weighted([(0, 1), (rng.randint(1, 16) * align, 3), (rng.randint(1, max(1, min(unit, 65536) // align)) * align, 3)])
+    a = k * unit - back
+    a = max(0, min(a, max(0, size - 1)))
+    return a - a % align
+
+
 def gen_requests(rng, size, unit, n=6, sector=None, raw_align=1, max_bytes=4_000_000):
     """Requests against a disk of `size` bytes with allocation unit `unit` bytes.
-    sector: sector size when the reader has a read_sectors interface; raw_align: alignment of back-end offsets."""
+    sector: sector size when the reader has a read_sectors interface; raw_align: alignment of back-end offsets.
+    Half of the requests start shortly before a unit boundary so that crossings are common even for huge units."""
     reqs = []
     kinds = [("raw", 3), ("bytes", 4)] + ([("sectors", 3)] if sector else [])
     span_cap = max(1, min(3 * unit, max_bytes))
     for _ in range(n):
         k = rng.weighted(kinds)
+        near = rng.chance(0.5)
         if k == "sectors":
             nsect = max(1, (size + sector - 1) // sector)
-            s = rng.randrange(0, nsect)
+            s = (_near_boundary(rng, size, unit, sector) // sector) if near else rng.randrange(0, nsect)
+            s = min(s, nsect - 1)
             spu = max(1, unit // sector)
-            span = rng.weighted([(1, 1), (spu, 2), (2 * spu + 1, 3), (nsect, 1)])
+            span = rng.weighted([(1, 1), (spu, 2), (2 * spu + 1, 3), (nsect, 1), (40, 2)])
             cnt = max(1, min(nsect - s, rng.randint(1, max(1, span)), max(1, max_bytes // sector)))
             reqs.append(["sectors", s, cnt])
         elif k == "raw":
-            a = rng.randrange(0, max(1, size))
+            a = _near_boundary(rng, size, unit, raw_align) if near else rng.randrange(0, max(1, size))
             a -= a % raw_align
             ln = rng.weighted([(rng.randint(1, span_cap), 3), (rng.randint(1, 700), 1),
-                               (min(max_bytes, size - a + rng.randint(0, 2 * unit + 8192)), 2)])
+                               (rng.randint(1, 70000), 2),
+                               (min(max_bytes, size - a + rng.randint(0, min(2 * unit, max_bytes) + 8192)), 2)])
             if raw_align > 1:
                 ln = max(raw_align, ln - ln % raw_align)
             reqs.append(["raw", a, max(1, ln)])
         else:
-            a = rng.randrange(0, size + 3)
-            ln = rng.weighted([(rng.randint(0, 600), 2), (rng.randint(0, span_cap + 100), 4), (-1, 1), (size, 1)])
+            a = _near_boundary(rng, size, unit) if near else rng.randrange(0, size + 3)
+            ln = rng.weighted([(rng.randint(0, 600), 2), (rng.randint(0, span_cap + 100), 4), (-1, 1), (size, 1),
+                               (rng.randint(1, 70000), 2)])
             if size - a > max_bytes and (ln < 0 or ln > max_bytes):
                 ln = max_bytes
             reqs.append(["bytes", a, ln])
